@@ -9,15 +9,43 @@ LEVEL = 'exploration'
 RULE = ('TCPCL: C01/C09 plan space with extra user calls (queue queries, idle queries, double pops, session parameter / state '
         'queries) at drawn times; every signal emission and method return is marshalled against its declared signature by the '
         'model of dbus-python (ref/dbus_sig.py); queue and idle answers are compared with a sequential model at every call. '
+        'TCPCL against a scripted peer (engine E2): user sends, peer acknowledgements and refusals (during a transfer and after its last '
+        'segment), inbound transfers left open and completed later, queries and pops in drawn order, then everything is answered and '
+        'popped and the idle indication must be true and a SESS_TERM exchange (started by the user or by the peer) must end in a closed contact. '
         'UDPCL: engine E6 runs with the same marshalling check and queue model. Non-trivial: at least one query answered while '
         'a transfer was queued, in progress or awaiting pop; distinct = distinct event-history digests.')
 COMPONENTS = tc.COMPONENTS
-PROBES = ('probe.query_during_transfer', 'probe.idle_true', 'probe.idle_false', 'probe.double_pop', 'wire.SESS_TERM', 'engine.tcpcl', 'engine.udpcl', 'engine.fullstack')
+PROBES = ('probe.query_during_transfer', 'probe.idle_true', 'probe.idle_false', 'probe.double_pop', 'wire.SESS_TERM', 'engine.tcpcl', 'engine.udpcl', 'engine.fullstack', 'engine.scripted',
+          'probe.refuse_after_end', 'probe.refuse_in_progress')
 ASSUMPTIONS = ['as C01', 'marshalling model agrees with dbus-python 1.3.2 on the argument shapes the agents produce (selftest fidelity)']
 CHUNK = 10
 
 
+def _gen_scripted(ch):
+    ''' Engine E2: the agent against a scripted peer, which (unlike the repo's own agent) also refuses transfers. '''
+    cfg = dict(node_id='dtn://v/', keepalive_time=0, idle_time=0, segment_size_mru=10 * 1024**2,
+               segment_size_tx_initial=ch.choice('txi', (16, 200, 104857)), tls_enable=False, enable_test=[])
+    ops = []
+    for _ in range(2 + ch.pick('nops', 14)):
+        kind = ch.weighted('sop', (4, 5, 2, 4, 1))
+        if kind == 0:
+            ops.append(['send', ch.choice('slen', (0, 1, 40, 700, 3000))])
+        elif kind == 1:
+            ops.append(['answer', ch.choice('how', ('ack1', 'ack1', 'ackall', 'refuse', 'refuse')), ch.choice('rsn', (0, 1, 2, 3))])
+        elif kind == 2:
+            ops.append(['inbound', 1 + ch.pick('nseg', 3), ch.choice('seglen', (0, 1, 100)), ch.coin('whole', 3, 4)])
+        elif kind == 3:
+            ops.append(['query', ch.choice('q', ('is_sess_idle', 'is_sess_idle', 'send_bundle_get_queue', 'recv_bundle_get_queue'))])
+        else:
+            ops.append(['pop'])
+    return dict(scenario='tcpcl_scripted', role=ch.choice('role', ('passive', 'active')), cfg=cfg, chunk_size=10240,
+                peer_mru=ch.choice('pmru', (1 << 20, 50, 300)), ops=ops, drain=ch.choice('drain', ('ack', 'refuse', 'mixed')),
+                terminate=ch.choice('sterm', (None, 'peer', 'user')))
+
+
 def gen(ch, tier):
+    if ch.coin('scripted', 1, 5):
+        return _gen_scripted(ch)
     if ch.coin('fullstack', 1, 6):
         sends = sorted(([ch.choice('t', (0, 0, 1000, 5000, 200000)) + 1000 * ch.pick('tt', 300), ch.choice('len', (1, 30, 150, 400, 1200)), ix + 1]
                         for ix in range(1 + ch.pick('nsend', 6))), key=lambda item: item[0])
@@ -54,6 +82,8 @@ def execute(plan, sched, verbose=False):
         return _execute_udpcl(plan, sched, verbose)
     if plan.get('scenario') == 'full_stack':
         return _execute_fullstack(plan, sched, verbose)
+    if plan.get('scenario') == 'tcpcl_scripted':
+        return _execute_scripted(plan, sched, verbose)
     return tcpcl_pair.run_plan(plan, sched, verbose)
 
 
@@ -118,6 +148,217 @@ def _execute_fullstack(plan, sched, verbose):
     finally:
         bp_net.CURRENT = None
     return run
+
+
+def _execute_scripted(plan, sched, verbose):
+    from scenarios import tcpcl_peer
+    from ref import rfc9174
+    har = tcpcl_peer.PeerHarness(plan, sched, verbose)
+    run = _URun()
+    run.har = har
+    run.wld = har.wld
+    run.plan = plan
+    run.viols = []
+    run.stats = {'engine.scripted': 1}
+    try:
+        _drive_scripted(run, plan, har, rfc9174)
+    finally:
+        har.restore()
+    return run
+
+
+def _drive_scripted(run, plan, har, rfc9174):
+    stats = run.stats
+    state = dict(answered=0, cum={}, refused=set(), final_acked=set(), ended=set(), in_tid=1, partial=None)
+
+    def put(msg):
+        if not har.victim_closed():
+            har.deliver(rfc9174.encode(msg))
+            har.settle()
+
+    put(dict(kind='CONTACT', flags=0))
+    put(dict(kind='SESS_INIT', keepalive=0, segment_mru=plan['peer_mru'], nodeid=b'dtn://x/', ext=[]))
+    hdl = har.victim_state()
+    if har.contact is None or hdl is None or not hdl._in_sess:
+        stats['scripted.no_session'] = 1
+        return
+
+    def segments():
+        return [msg for msg in har.vmsgs if msg['kind'] == 'XFER_SEGMENT']
+
+    def answer(how, reason, limit):
+        done = 0
+        while not har.victim_closed():
+            segs = segments()
+            if state['answered'] >= len(segs) or done >= limit:
+                break
+            seg = segs[state['answered']]
+            state['answered'] += 1
+            tid = seg['transfer_id']
+            state['cum'][tid] = state['cum'].get(tid, 0) + len(seg['data'])
+            if seg['flags'] & rfc9174.FLAG_END:
+                state['ended'].add(tid)
+            if tid in state['refused']:
+                continue
+            done += 1
+            if how == 'refuse':
+                state['refused'].add(tid)
+                late = tid in state['ended'] or any(later['transfer_id'] == tid and later['flags'] & rfc9174.FLAG_END for later in segs)
+                stats['probe.refuse_after_end' if late else 'probe.refuse_in_progress'] = 1
+                put(dict(kind='XFER_REFUSE', reason=reason, transfer_id=tid))
+            else:
+                if seg['flags'] & rfc9174.FLAG_END:
+                    state['final_acked'].add(tid)
+                put(dict(kind='XFER_ACK', flags=seg['flags'], transfer_id=tid, length=state['cum'][tid]))
+
+    def inbound(nseg, seglen, whole):
+        if state['partial'] is not None:
+            finish_inbound()
+        tid = state['in_tid']
+        state['in_tid'] += 1
+        total = nseg * seglen
+        last = nseg if whole else max(1, nseg - 1)
+        for six in range(last):
+            flags = (rfc9174.FLAG_START if six == 0 else 0) | (rfc9174.FLAG_END if six == nseg - 1 else 0)
+            ext = [rfc9174.xfer_length_ext(total)] if six == 0 else []
+            put(dict(kind='XFER_SEGMENT', flags=flags, transfer_id=tid, ext=ext, data=bytes([0x41 + tid % 20]) * seglen))
+        if last < nseg or (not whole and nseg == 1):
+            state['partial'] = (tid, last, nseg, seglen)
+        if not whole and nseg == 1:
+            # a lone START|END segment cannot be left open: nothing partial after all
+            state['partial'] = None
+
+    def finish_inbound():
+        (tid, nxt, nseg, seglen) = state['partial']
+        state['partial'] = None
+        for six in range(nxt, nseg):
+            flags = rfc9174.FLAG_END if six == nseg - 1 else 0
+            put(dict(kind='XFER_SEGMENT', flags=flags, transfer_id=tid, ext=[], data=bytes([0x41 + tid % 20]) * seglen))
+
+    for op in plan['ops']:
+        if har.victim_closed() or har.wld.capped or har.hang:
+            break
+        if op[0] == 'send':
+            har.user_send(bytes([0x61 + len(har.queued) % 20]) * op[1])
+            har.settle()
+        elif op[0] == 'answer':
+            answer(op[1], op[2], 1 if op[1] != 'ackall' else 10**6)
+        elif op[0] == 'inbound':
+            inbound(op[1], op[2], op[3])
+        elif op[0] == 'query':
+            har.call(har.contact, op[1])
+        elif op[0] == 'pop':
+            ret = har.call(har.contact, 'recv_bundle_get_queue')
+            if isinstance(ret, list) and ret:
+                har.call(har.contact, 'recv_bundle_pop_data', ret[0])
+    # drain: complete what is open, answer everything, pop everything
+    if state['partial'] is not None:
+        finish_inbound()
+    rounds = 0
+    while not har.victim_closed() and not har.wld.capped and not har.hang and rounds < 5000:
+        rounds += 1
+        if state['answered'] >= len(segments()):
+            break
+        how = plan['drain']
+        if how == 'mixed':
+            how = 'refuse' if rounds % 2 else 'ack'
+        answer('ack1' if how == 'ack' else 'refuse', 2, 1)
+    har.user_pop_all()
+    har.settle()
+    run.final_idle = None
+    if state['answered'] < len(segments()):
+        stats['scripted.not_drained'] = 1
+    elif not har.victim_closed() and not har.wld.capped and not har.hang:
+        har.call(har.contact, 'send_bundle_get_queue')
+        har.call(har.contact, 'is_sess_idle')
+        run.final_idle = har.calls[-1]
+        if plan['terminate'] == 'peer':
+            # graceful end requested by the peer: the agent replies; the peer, having sent and received SESS_TERM, closes; the agent follows
+            put(dict(kind='SESS_TERM', flags=0, reason=0))
+            replies = [msg for msg in har.vmsgs if msg['kind'] == 'SESS_TERM']
+            if not replies:
+                run.viols.append(('idle', 'no-sess-term-reply-after-drain', 'peer SESS_TERM after everything drained got no reply'))
+            else:
+                with har.wld.as_node(har.xnode):
+                    har.xsock.close()
+                har.settle()
+                if not har.closed:
+                    run.viols.append(('idle', 'not-closed-after-drain', 'SESS_TERM exchanged, peer closed, nothing outstanding, but the agent did not close'))
+            stats['wire.SESS_TERM'] = 1
+        elif plan['terminate'] == 'user':
+            # graceful end requested by the user: once the peer's reply is in and nothing is outstanding the agent closes on its own
+            har.call(har.contact, 'terminate', 0)
+            har.settle()
+            put(dict(kind='SESS_TERM', flags=1, reason=0))
+            if not har.xsock.rx_eof and not har.closed:
+                run.viols.append(('idle', 'not-closed-after-drain', 'SESS_TERM sent and answered with nothing outstanding but the agent did not close'))
+            stats['wire.SESS_TERM'] = 1
+    _judge_scripted(run, har, state)
+
+
+def _judge_scripted(run, har, state):
+    viols = run.viols
+    sigs = {}
+    for evt in har.wld.hist:
+        if evt[3] == 'dbus-marshal-error':
+            viols.append(('dbus-type', '%s:%s' % (evt[4], evt[6]), '%s %s does not conform to signature %r: args %r (%s)' % (evt[4], evt[6], evt[7], evt[8], evt[9])))
+        elif evt[3] == 'dbus-signal' and evt[4] == har.contact:
+            sigs.setdefault(evt[5], []).append((evt[0], evt[7]))
+        elif evt[3] == 'escaped-exception':
+            run.stats['probe.escaped_exception'] = 1
+    tx_fin = [(seq, str(args[0])) for (seq, args) in sigs.get('send_bundle_finished', [])]
+    rx_fin = [(seq, str(args[0])) for (seq, args) in sigs.get('recv_bundle_finished', [])]
+    rx_start = [(seq, str(args[0])) for (seq, args) in sigs.get('recv_bundle_started', [])]
+    for (name, fins) in (('recv', rx_fin), ('send', tx_fin)):
+        seen = set()
+        for (_seq, bid) in fins:
+            if bid in seen:
+                viols.append(('finished-once', name + '-finished-twice', 'agent emitted %s_bundle_finished twice for %s' % (name, bid)))
+            seen.add(bid)
+    queued_at = {}
+    popped_at = {}
+    for call in har.calls:
+        (seq, _when, _side, member, args, ret) = call
+        err = isinstance(ret, tuple) and len(ret) == 3 and ret[0] == 'error'
+        if member == 'send_bundle_data' and not err:
+            queued_at[str(ret)] = seq
+        elif member == 'recv_bundle_pop_data':
+            bid = str(args[0])
+            announced = [fseq for (fseq, fbid) in rx_fin if fbid == bid and fseq < seq]
+            if err and announced and bid not in popped_at:
+                viols.append(('pop', 'pop-failed', 'could not pop announced transfer %s: %s' % (bid, ret[1])))
+            elif not err:
+                if bid in popped_at:
+                    viols.append(('pop', 'popped-twice', 'popped transfer %s twice' % bid))
+                if not announced:
+                    viols.append(('pop', 'popped-unannounced', 'popped transfer %s before it was announced' % bid))
+                popped_at[bid] = seq
+        elif member == 'recv_bundle_get_queue' and not err:
+            want = set(fbid for (fseq, fbid) in rx_fin if fseq < seq) - set(bid for (bid, pseq) in popped_at.items() if pseq < seq)
+            got = set(str(item) for item in ret)
+            if got != want:
+                viols.append(('rx-queue', 'mismatch', 'receive queue lists %s, model says %s' % (sorted(got), sorted(want))))
+        elif member == 'send_bundle_get_queue' and not err:
+            want = set(tid for (tid, qseq) in queued_at.items() if qseq < seq) - set(fbid for (fseq, fbid) in tx_fin if fseq < seq)
+            got = set(str(item) for item in ret)
+            if got != want:
+                viols.append(('tx-queue', 'mismatch', 'send queue lists %s, model says %s' % (sorted(got), sorted(want))))
+        elif member == 'is_sess_idle' and not err:
+            unfinished = set(tid for (tid, qseq) in queued_at.items() if qseq < seq) - set(fbid for (fseq, fbid) in tx_fin if fseq < seq)
+            rx_inprog = set(bid for (sseq, bid) in rx_start if sseq < seq) - set(fbid for (fseq, fbid) in rx_fin if fseq < seq)
+            run.stats['probe.idle_true' if ret else 'probe.idle_false'] = 1
+            if unfinished or rx_inprog:
+                run.stats['probe.query_during_transfer'] = 1
+            if bool(ret) and (unfinished or rx_inprog):
+                viols.append(('idle', 'true-while-' + ('tx-pending' if unfinished else 'rx-in-progress'), 'agent reports idle although a transfer is unfinished'))
+            if call is run.final_idle and not bool(ret):
+                viols.append(('idle', 'never-idle-after-drain-scripted', 'every transfer was acknowledged or refused and every received one popped, still not idle'))
+    # every transfer whose final segment was acknowledged, or which was refused, got exactly one finished signal
+    fin_ids = set(bid for (_seq, bid) in tx_fin)
+    for tid in sorted(state['final_acked'] | state['refused']):
+        if str(tid) not in fin_ids and not har.victim_closed():
+            viols.append(('finished-once', 'send-never-finished', 'transfer %s was %s by the peer but no send_bundle_finished was emitted' % (
+                tid, 'refused' if tid in state['refused'] else 'fully acknowledged')))
 
 
 def _execute_udpcl(plan, sched, verbose):
@@ -216,6 +457,10 @@ def describe(run):
     if isinstance(run, _URun):
         counters = dict(run.wld.counters)
         counters.update(run.stats)
+        if run.plan.get('scenario') == 'tcpcl_scripted':
+            return dict(nontrivial=bool(run.stats.get('probe.query_during_transfer') or run.stats.get('probe.refuse_after_end')), key=run.wld.digest(),
+                        sim_us=run.wld.now, steps=run.wld.steps, capped=run.wld.capped, counters=counters,
+                        sample=dict(engine='scripted', role=run.plan['role'], peer_mru=run.plan['peer_mru'], ops=run.plan['ops'][:12], drain=run.plan['drain']))
         if run.plan.get('scenario') == 'full_stack':
             return dict(nontrivial=True, key=run.wld.digest(), sim_us=run.wld.now, steps=run.wld.steps, capped=run.wld.capped, counters=counters,
                         sample=dict(engine='fullstack', mtu=run.plan['mtu'], bp_mtu=run.plan['bp_mtu'], sends=run.plan['sends'], net=run.plan['net']))
